@@ -193,12 +193,18 @@ def run_script_with_cache(filename, execer, glb=None, loc=None, mode="exec"):
     return run_compiled_code(ccode, glb, loc, mode)
 
 
-def code_cache_name(code):
+def code_cache_name(code, mode="exec"):
     """
     Return an appropriate spoofed filename for the given code.
+
+    The same text compiles to different code in different modes (``1+1``
+    prints its value in "single" mode only), so the mode is part of the
+    name; entries of the default mode keep the names they always had.
     """
     if isinstance(code, str):
         code = code.encode()
+    if mode != "exec":
+        code = mode.encode() + b"\0" + code
     # usedforsecurity=False: allow md5 on FIPS-enabled systems
     return hashlib.md5(code, usedforsecurity=False).hexdigest()
 
@@ -240,7 +246,7 @@ def run_code_with_cache(
     See run_compiled_code for the return value.
     """
     use_cache = should_use_cache(execer, mode)
-    filename = code_cache_name(code)
+    filename = code_cache_name(code, mode)
     cachefname = get_cache_filename(filename, code=True)
     run_cached = False
     if use_cache:
